@@ -44,7 +44,7 @@ TEXT_BEARING = {
     "text:sender-company", "text:sender-phone-work", "text:sender-street", "text:sender-city", "text:sender-postal-code", "text:sender-country",
     "text:sender-state-or-province", "text:author-name", "text:author-initials", "text:chapter", "text:file-name", "text:template-name",
     "text:sheet-name", "text:variable-set", "text:variable-get", "text:variable-input", "text:user-field-get", "text:user-field-input",
-    "text:sequence", "text:expression", "text:text-input", "text:initial-creator", "text:creation-date", "text:creation-time", "text:description",
+    "text:sequence", "text:expression", "text:text-input", "text:initial-creator", "text:creation-date", "text:creation-time", "text:description", "text:drop-down",
     "text:user-defined", "text:print-time", "text:print-date", "text:printed-by", "text:title", "text:subject", "text:keywords",
     "text:editing-cycles", "text:editing-duration", "text:modification-time", "text:modification-date", "text:creator", "text:page-count",
     "text:paragraph-count", "text:word-count", "text:character-count", "text:table-count", "text:image-count", "text:object-count",
@@ -203,7 +203,10 @@ def r11c(ctx):
                     return "binary"
                 return norm(g, 28)
 
-            gtxt = " & ".join(("" if pol else "!") + role(g) for g, pol in gs)
+            # only the guards the rule reasons about take part in the identity (an unrelated dominating test added later must not rename the finding)
+            rel = [(g, pol) for g, pol in gs if g is arms.test or role(g) == "binary"
+                   or any(isinstance(x, ast.Name) and x.id == "textual_parent" or isinstance(x, ast.Attribute) and x.attr in ("tail", "text") for x in ast.walk(g))]
+            gtxt = " & ".join(("" if pol else "!") + role(g) for g, pol in rel)
             ctx.report("R11c", f, w, f"{norm(w, 40)} under {gtxt}",
                        f"pretty_indent writes indentation into character content: {why}; the readable text of the paragraph changes "
                        f"when the document is saved pretty")
@@ -439,6 +442,40 @@ def r11i(ctx):
                        "and the flat XML no longer has the element structure the zip and folder packagings have")
 
 
+def r11j(ctx):
+    """The indenter meets every kind of node.
+
+    pretty_indent recurses over `elem[:-1]` / `elem[-1]`: lxml hands out comments and processing instructions there too, and their `.tag`
+    is a function, not a string.  A part of a document written by another tool may hold them (R11h makes sure the parser keeps them).
+    An indented save — folder, flat XML, pretty zip — must not fail on them, or the document cannot be saved neutrally at all.  Rule: in
+    every function of container.py that applies a str method to `<node>.tag`, a test `isinstance(<node>.tag, str)` that leaves the function
+    (or skips the node) dominates the use.
+    """
+    from ..paths import cfg_of, node_of
+    repo = ctx.repo
+    ctx.rule("R11j", "a str method on an lxml node's tag is preceded by a test that the tag is a string (comments and PIs have a callable tag)", floor=1)
+    n = 0
+    for f in repo.module("container").all_funcs:
+        uses = [x for x in walk_no_nested(f.node) if isinstance(x, ast.Call) and isinstance(x.func, ast.Attribute) and isinstance(x.func.value, ast.Attribute)
+                and x.func.value.attr == "tag" and x.func.attr in ("rpartition", "partition", "split", "rsplit", "startswith", "endswith", "replace")]
+        if not uses:
+            continue
+        cfg = cfg_of(f)
+        for u in uses:
+            n += 1
+            node_txt = norm(u.func.value.value)
+            tests = [t for t in walk_no_nested(f.node) if isinstance(t, ast.If) and any(
+                isinstance(c, ast.Call) and call_name(c) == "isinstance" and len(c.args) == 2 and norm(c.args[0]) == f"{node_txt}.tag" and "str" in norm(c.args[1]) for c in ast.walk(t.test))]
+            ok = any(cfg.dominates(node_of(cfg, t), node_of(cfg, u)) and any(isinstance(b, (ast.Return, ast.Continue, ast.Raise)) for b in ast.walk(t)) for t in tests)
+            ctx.instance("R11j", f"{f.file}:{f.ident}", f"`{norm(u, 40)}` after a test of the tag's type", ok=ok, nontrivial=True, line=u.lineno)
+            if not ok:
+                ctx.report("R11j", f, u, norm(u, 60),
+                           f"{f.ident} applies `.{u.func.attr}()` to `{node_txt}.tag` without having tested that it is a string: for a comment or processing instruction the tag is a "
+                           f"function and every indented save of a part that holds one raises AttributeError")
+    if n == 0:
+        raise AnalysisError("R11j: the indenter no longer derives the tag name from `.tag`")
+
+
 def run(ctx):
     r11a(ctx)
     r11b(ctx)
@@ -448,6 +485,7 @@ def run(ctx):
     r11g(ctx)
     r11h(ctx)
     r11i(ctx)
+    r11j(ctx)
     # two saves write the same content only if saving never re-reads a part that is already in memory (rule shared with C03)
     from .c03 import r03a
     r03a(ctx)
@@ -459,6 +497,8 @@ _CT = "src/odfdo/container.py"
 _XP = "src/odfdo/xmlpart.py"
 _DOC = "src/odfdo/document.py"
 SEEDS = [
+    Seed("the indenter no longer tests the kind of node", "fault", _CT,
+         "    if not isinstance(elem.tag, str):\n        # comment or processing instruction: nothing to indent\n        return elem\n", "", "R11j"),
     Seed("flat XML caches the encoded image element per href", "fault", _CT,
          "                    for elem in images:\n                        encoded = self._encoded_image(elem)\n                        elem.getparent().replace(elem, encoded)",
          "                    done = {}\n                    for elem in images:\n                        href = elem.get('href')\n                        if href not in done:\n                            done[href] = self._encoded_image(elem)\n                        elem.getparent().replace(elem, done[href])", "R11i"),
